@@ -46,7 +46,7 @@ ASSUMPTIONS = [
     "payloads of 2**32 bytes or more (struct.error in FRAME_HEADER.pack) are excluded by the explicit guard `Fits` "
     "and not generated",
     "a stream subclass with MAX_IO_CHUNK < FRAME_HEADER.size (negative part1) is not modelled",
-    "PIPE + WOULD-BLOCK (deviation by the letter, see C05_pipe_wouldblock_counterexample): PipeStream.read has no "
+    "PIPE + WOULD-BLOCK (deviation by the letter, KNOWN FINDING c05:pipe-wouldblock-is-fatal, see C05_pipe_wouldblock_counterexample): PipeStream.read has no "
     "retry, so an EAGAIN/timeout reported by os.read on a pipe is fatal (EOFError + closed, packet lost). The claim "
     "'whatever transient would-block or timeout conditions' is proved for sockets (C05_transients_socket) and, for "
     "pipes, only for scripts of data events (C05_pipe_partial); safety (prefix, then EOFError + closed) holds for both. "
@@ -1198,9 +1198,8 @@ PIPE_WOULDBLOCK = "c05:pipe-wouldblock-is-fatal"
 
 
 def known_probes(ctx):
-    """Armed only while known_findings.json lists the signature with status 'known' (the classification is the
-    coordinator's decision; until then the observation is printed in the evidence under
-    observations_outside_the_claim).  The witness is Rpyc.Props.C05.pipe_wouldblock_counterexample."""
+    """Listed in known_findings.json (status 'known'); armed only while it is listed as such.  The witness of
+    Rpyc.Props.C05.C05_pipe_wouldblock_counterexample is replayed on a real pipe whose read end is O_NONBLOCK."""
     if PIPE_WOULDBLOCK not in getattr(ctx, "known_signatures", ()):
         return []
     lost, text = wire_kernel.probe_pipe_wouldblock()
